@@ -43,7 +43,10 @@ RamOf(id) == IF id = "d0" THEN 0 ELSE IF id = "r32" THEN 32 ELSE 16
 \* base: the caller's base policy; "mixed" = it already carries an MRTD allow-list made of one endorsed
 \* value and the quote's own MRTD (derivation without overwrite must refuse it, not adopt the list)
 TdxRows == {r \in [tech : {"tdx"}, rows : SUBSET TdxIds, emptyrow : BOOLEAN,
-                   mrtd : {"d0", "r16", "r16e", "r32", "n16", "un"}, ram : {0, 16, 32, 64},
+                   \* RAM sizes a caller may name: none (0), listed ones, an unlisted one, and two that only a 32-bit
+                   \* reading confuses with 16 and with "none": 2^32 + 16 and 2^32, written -16 and -1 here (TLC's
+                   \* integers are 32 bits wide; the harness puts the real numbers in their place)
+                   mrtd : {"d0", "r16", "r16e", "r32", "n16", "un"}, ram : {0, 16, 32, 64, -16, -1},
                    entry : {"TdxPolicy", "TdxValidate", "cli_tdx"}, base : {"none", "mixed"}] :
               r.entry = "cli_tdx" => r.base = "none"}
 
